@@ -4,6 +4,7 @@ import (
 	"encoding/json"
 	"fmt"
 	"net"
+	"runtime/debug"
 	"sort"
 	"strings"
 	"time"
@@ -21,11 +22,25 @@ var c20Addrs = []string{"0.0.0.0", "0.0.0.1", "10.0.0.0", "10.0.0.1", "10.0.0.2"
 
 func u32(ip net.IP) uint32 { return nets.IPToInt(ip) }
 
+// panicInfo is what watchdog reports for a panic.
+type panicInfo struct {
+	Value interface{}
+	Stack string
+}
+
+func (p panicInfo) String() string { return fmt.Sprint(p.Value) }
+
 // watchdog runs f; reports a panic value or a timeout (the goroutine is abandoned on timeout).
 func watchdog(d time.Duration, f func()) (panicked interface{}, timedOut bool) {
 	done := make(chan interface{}, 1)
 	go func() {
-		defer func() { done <- recover() }()
+		defer func() {
+			r := recover()
+			if r != nil {
+				r = panicInfo{Value: r, Stack: string(debug.Stack())}
+			}
+			done <- r
+		}()
 		f()
 	}()
 	select {
